@@ -641,6 +641,25 @@ def run_family(res, prop, prop_mod, cases, dcases=None, spec_on_streams=True, ru
         res.violation("%s:accounting" % prop, "the real reader lost, repeated or re-ordered input bytes: its messages differ from the adjacent-run accounting of the same reads",
                       {"chunks": cases[i]["chunks"], "real": routs[i].get("msgs"), "accounting": routs[i].get("ref"), "widths": routs[i].get("ref_w")})
         found = True
+    # nothing is held back after a short read (an event boundary) unless a paste is still open: when the reader has
+    # stopped with the scripted error, the runs cover the whole input
+    bad_held = []
+    for i, (c, o) in enumerate(zip(cases, routs)):
+        if o["why"] != "err" or "ref_w" not in o and not o.get("ref"):
+            continue
+        chunks = [ch for ch in c["chunks"]]
+        flat = [b for ch in chunks for b in ch]
+        last = chunks[-1] if chunks else []
+        covered = sum(o.get("ref_w") or [])
+        held = flat[covered:]
+        if held and len(last) < 256 and held[:6] != [27, 91, 50, 48, 48, 126] and not any("PANIC" in x for x in (o.get("ref") or [])):
+            bad_held.append((i, held))
+    res.oblige("Spec on real output: after a short last read nothing is held back (unless a paste is still open): the runs cover the whole input",
+               not bad_held, [(cases[i]["chunks"][-2:], h[:8]) for i, h in bad_held[:2]])
+    for i, h in bad_held[:1]:
+        res.violation("%s:held-back" % prop, "the input ended after a short read and %d byte(s) %s were never turned into a message" % (len(h), h[:8]),
+                      {"chunks": cases[i]["chunks"], "real": routs[i].get("msgs"), "widths": routs[i].get("ref_w")})
+        found = True
     if real_oracle:
         bad = []
         for i, (c, o) in enumerate(zip(cases, routs)):
